@@ -611,6 +611,9 @@ class PyExec:
         ts = [t for _, t in vals]
         if all(isinstance(v, PBool) for v, _ in vals):
             return PBool(z3.And(*ts) if is_and else z3.Or(*ts))
+        if not all(isinstance(v, (PBool, PStr, PInt)) or (isinstance(v, PAny) and not isinstance(v, POpaque)) for v, _ in vals):
+            # operands with object truthiness (references, None, opaque values): only the truth value is modelled
+            return PBool(z3.And(*ts) if is_and else z3.Or(*ts))
         # value semantics: `a and b` is b if a is truthy else a; `a or b` is a if a is truthy else b (right to left fold)
         out = vals[-1][0]
         for v, t in reversed(vals[:-1]):
